@@ -236,6 +236,9 @@ func (m *Machine) load(addr *Value) Value {
 	if addr == nil {
 		m.runtimePanic("invalid memory address or nil pointer dereference")
 	}
+	if _, bad := (*addr).(Bad); bad {
+		m.unsupported("use of a variable whose initialiser is not encodable")
+	}
 	return copyVal(*addr)
 }
 
